@@ -14,18 +14,21 @@ TB = ("Trusted base: Lean 4.33 kernel (axioms propext / Classical.choice / Quot.
 CHECKS = {
     # id: (category, technique, text, note, design_ref)
     "C02": ("proof", "Lean 4 theorem (induction over the conditional AST) + table obligations by decide + differential correspondence",
-            "Theorem C02_routing_correct: for every conditional, depth, predicate tree and environment, executing the emitted lines by "
+            "C02_compiled_text_runs_as_spec (whatever the regenerated lexer/LR tables and compile checks accept runs as the reference meaning of "
+            "the accepted experiment). Theorem C02_routing_correct: for every conditional, depth, predicate tree and environment, executing the emitted lines by "
             "Python's indentation/control-flow rules selects exactly the return statement of nested if/else-if/else, raises the unroutable "
             "error exactly when none is selected; the operator table, repr-rendering and tuple rendering of the real generator are "
             "re-checked by decide on tables regenerated from /repo; model and code are compared stage-wise (tokens, AST, generated text, "
             "outcome) on generated programs with one distinct label per return statement and literal-boundary inputs.",
             TB + "LR-table completeness is tied by correspondence only.", "6/C02"),
     "C03": ("proof", "Lean 4 theorems (bisect partition, exact interval rule for integer weights) + bit-exact correspondence",
-            "Theorems C03_int_exact / C03_zero_never / C03_selectable / C03_share / C03_bisect_partition for every n, weight vector and "
-            "h < 2^32; the Dbl (binary64) model is compared bit-for-bit with CPython on cumulative sums and on the chosen index with the "
-            "hash position substituted at every boundary-adjacent grid point.",
-            TB + "For decimal weights the equality with the real-valued rule is claimed to within one grid point per boundary; monotonicity "
-                 "of the concrete rounding function is validated, not proved.", "6/C03"),
+            "Theorems C03_int_exact / C03_zero_never / C03_selectable / C03_share for every n, integer weight vector and h < 2^32 (exact rule); "
+            "C03_float_partition / C03_float_zero_never for ANY non-negative binary64 weights (half-open intervals of the rounded cumulative "
+            "sums in declared order, built on the proved monotonicity of the model's round-to-nearest-even); the Dbl model is compared "
+            "bit-for-bit with CPython on cumulative sums and on the chosen index with the hash position substituted at every "
+            "boundary-adjacent grid point, also through compiled experiments.",
+            TB + "For decimal weights the equality with the real-valued rule holds to within one grid point per boundary (checked by the tie); "
+                 "a zero-weighted LAST group can be selected when the total is subnormal (known finding K4, outside the stated range).", "6/C03"),
     "C06": ("proof", "Lean 4 theorems (lexer no-skip for any rule table; LR soundness for the dumped tables) + mutation correspondence",
             "C06_lex_no_skip: every character of an accepted text belongs to a token or trivia (generic in the rule tables, instantiated at "
             "the tables regenerated from /repo, whose error callbacks are shown to raise by decide); C06_parse_sound: a token list the code's "
@@ -33,7 +36,8 @@ CHECKS = {
             "independent recogniser are run against the real compiler and the model.",
             TB + "sly's table construction is not modelled (its output is data); panic-mode recovery is not modelled: the obligation is that it is unreachable.", "6/C06"),
     "C07": ("proof", "Lean 4 theorems (codegen well-formedness, outcome classes) + sentence-generator correspondence",
-            "For every AST: the emitted body is well indented, the parameter list has no duplicates, compile checks pass under PyNameOK, and the "
+            "C07_lex_complete: every admissible rendering of a token list (all 30 token kinds, identifiers that merely begin with a keyword "
+            "included) lexes back to exactly those tokens, for the rule tables regenerated from /repo. For every AST: the emitted body is well indented, the parameter list has no duplicates, compile checks pass under PyNameOK, and the "
             "outcome is a group of the routed statement or the unroutable error; sentences of the reference grammar (keyword-prefixed identifiers, "
             "shared fields, tuples in tuples, deep nesting, long chains, 64 groups) are compiled and evaluated on the real code and the model.",
             TB + "Completeness of the code's LR tables for all sentences is by correspondence only; PyNameOK excludes the recorded finding family K1.", "6/C07"),
@@ -75,10 +79,12 @@ CHECKS.update({
             "model's decimal→double and repr are compared bit-for-bit; every literal position x adversarial content x confusable inputs is run on the real code.",
             TB + "float repr / float() are modelled (shortest round-trip search) and validated, not proved; pydantic coercion mode is a probed flag.", "6/C05"),
     "C08": ("proof", "Lean 4 theorems over the regenerated lexer tables (order facts, trivia contributes no tokens) + metamorphic correspondence",
-            "Table obligations by decide (string literals tried before comment rules; block-comment end rule first and lazy) and the generic "
-            "theorem that the tokens of an accepted text are exactly its token pieces. Trivia-variants of one token sequence must give equal ASTs "
-            "and results on the real code and equal the model.",
-            TB + "Partial: the full round-trip lex(render toks tr1) = lex(render toks tr2) for all trivia is tied by correspondence, not yet proved.", "6/C08"),
+            "C08_trivia_prefix_invisible (any well-formed trivia sequence in front of any input is invisible to the lexer), C08_tokenStep (each of "
+            "the 30 token kinds followed by a separator lexes as itself), C08_roundtrip and C08_trivia_invariant (two admissible renderings of the "
+            "same tokens with different trivia lex identically) — proved for the rule tables regenerated from /repo, rules looked up by name. "
+            "Trivia-variants of one token sequence must give equal ASTs and results on the real code and equal the model.",
+            TB + "Lexer-level statement; equal token lists give equal parses because the parser consumes only tokens. A new keyword or a changed "
+                 "regex shape in the rule table needs the proofs revisited.", "6/C08"),
     "C09": ("proof", "Lean 4 theorems (factorisation of the generated function; only declared fields are read; key injectivity) + metamorphic correspondence",
             "C09_factorisation / C09_only_declared_fields / C09_missing_field / C09_splitter_order_irrelevant / C09_key_varies_with_salt about "
             "the model of the generated function; pairs of calls / programs related by each transformation are run on the real code.",
@@ -89,11 +95,13 @@ CHECKS.update({
             "compared with an independent implementation of the sentence.",
             TB + "MD5 itself is modelled, pinned by RFC vectors and >= 4000 random keys per run.", "6/C12"),
     "C13": ("proof", "Lean 4 theorems (masked skeleton invariant under literal substitution; rendered literal is one token) + structural correspondence",
-            "C13_skeleton_invariant and C13_literal_is_one_token (from the string round-trip); on the real generator the masked ast.dump must be "
+            "C13_text_of_replaced_strings (the generated TEXT with strings replaced is the same printed lines with only the repr renderings "
+            "replaced), C13_skeleton_invariant and C13_literal_is_one_token (from the string round-trip); on the real generator the masked ast.dump must be "
             "identical across adversarial substitutions and equal to the masked dump of the model's text, and a sentinel planted in builtins must never run.",
             TB + "Python's full parser is not modelled: structure equality of real and model text is checked with Python's own ast on every case.", "6/C13"),
     "C14": ("proof", "Lean 4 theorem (both layouts route identically) + executed generate_code correspondence",
             "C14_layouts_equivalent: the emitted body at depth 1 and depth 2 executes to the same routed result (C02 at two depths); "
+            "C14_text_is_rendered_lines: the module text compared character-for-character with the real generator is the printed form of those lines; "
             "generate_code(text, expose) for both layouts is exec'd in a fresh namespace and compared with the evaluator and the model.",
             TB + "black is outside the model: that it preserves the AST is checked on every case.", "6/C14"),
     "C15": ("proof", "Lean 4 theorems (totality of key construction and choice over the five value types) + value-type correspondence",
